@@ -150,6 +150,7 @@ def check_e2e(ck: Check, strs):
     sel = ["$v1", "US$5", "a$v1 b", "$V1% off", "$nope", "$1", "'$v1'", "x$$v1"] + sel
     sel = [s for s in sel if "\x00" not in s]
     rid = 0
+    shared = {"i": 0, "v": "", "c": "const'\\q", "n": None, "k": 7}
     for s in sel:
         ck.cov["evaluations"] += 1
         ck.count("e2e:str")
@@ -160,9 +161,14 @@ def check_e2e(ck: Check, strs):
             rid += 1
             other = sel[(rid * 13) % len(sel)]
             cur.execute("insert into c08_t values (%s, %s, %s)", (rid, s, other))
-            r = cur.execute("select v, w from c08_t where id = %(i)s and v = %(v)s", {"i": rid, "v": s}).fetchall()
-            if r != [(s, other)]:
-                report(f"insert then select of {s!r}/{other!r} (pyformat, dict) returned {r}", {"params": [rid, s, other], "observed": repr(r)})
+            # ONE dict object for all these executions, as a program with a 'row' dict does: two keys reassigned, one never (the values bound must
+            # be the dict's values each time, and the dict must stay the caller's)
+            shared["i"], shared["v"] = rid, s
+            r = cur.execute("select v, w from c08_t where id = %(i)s and v = %(v)s", shared).fetchall()
+            r2 = cur.execute("select %(v)s as v, %(c)s as c, %(n)s as n, %(k)s as k", shared).fetchall()
+            if r != [(s, other)] or r2 != [(s, "const'\\q", None, 7)] or shared != {"i": rid, "v": s, "c": "const'\\q", "n": None, "k": 7}:
+                report(f"insert then select of {s!r}/{other!r} with one reused dict of parameters returned {r} / {r2}; the dict is now {shared!r}",
+                       {"params": [rid, s, other], "observed": repr(r), "second": repr(r2), "dict_after": repr(shared)})
             r = cur.execute("select id from c08_t where v in (%s) and id = %s", ([s, "zz"], rid)).fetchall()
             if r != [(rid,)]:
                 report(f"IN list with {s!r} returned {r}", {"params": [[s, "zz"], rid], "observed": repr(r)})
